@@ -1059,6 +1059,9 @@ def run(ck):
                 continue
             rl()
         except (sym.Unsupported, sym.PathLimit, KeyError, IndexError, TypeError, AttributeError) as e:
+            if os.environ.get('UFWSA_TRACE'):
+                import traceback
+                traceback.print_exc()
             ck.broken(nm, 'engine', UNIT, '%s: %s' % (type(e).__name__, e))
     try:
         rule_g(ck, u)
